@@ -1192,7 +1192,20 @@ func (r *rxWorld) corrupt(kind string, m *message, i int, foreign *message) deli
 		}
 	case "corrupt_proof":
 		sib := u.MerkleProof.Siblings
-		switch t.Draw("proof_variant", 4) {
+		switch t.Draw("proof_variant", 6) {
+		case 4, 5: // on the wire a sibling is a byte string: truncated or empty; in memory a flip of its last byte
+			lvl := t.Draw("proof_level_short", len(sib))
+			sib[lvl][31] ^= 0xff
+			keep := 31
+			if t.Draw("proof_short_empty", 2) == 1 {
+				keep = 0
+			}
+			d.wire = func(pu *pb.PropellerUnit) {
+				if sb := pu.GetMerkleProof().GetSiblings(); lvl < len(sb) && len(sb[lvl].GetElements()) >= keep {
+					sb[lvl].Elements = sb[lvl].Elements[:keep]
+				}
+			}
+			variant = "short_sibling_on_wire"
 		case 0:
 			lvl := len(sib) - 1 - t.Draw("proof_level_from_top", len(sib))
 			sib[lvl][t.Draw("proof_byte", 32)] ^= 1 << uint(t.Draw("proof_bit", 8))
